@@ -208,6 +208,27 @@ func c03EntryShape(c *Ctx, r *R) {
 			}
 		}
 		r.Check(ok, "cas-argv", fn.Pos(), "update-ref <ref> <new> <old>: old value is passed to git", "CheckAndSetReference does not pass (ref, new, old) to `git update-ref` in that order: the compare part of compare-and-set is lost")
+		// and there is no way round it: every success return lies behind that very command (in particular
+		// when the expected old value is the zero id — `update-ref <ref> <new> 0…0` means "create only if
+		// absent", which is what makes the first append of a log race-free)
+		var cmds []ssa.Instruction
+		for _, ec := range executorCalls(c) {
+			if fname(ec.Fn) == fname(fn) && ec.OK && ec.Sub == "update-ref" {
+				if term, okT := terminalOf(ec.Call.Value(), 0); okT {
+					cmds = append(cmds, term.Instr)
+				}
+			}
+		}
+		if len(cmds) == 0 {
+			r.Bad("cas-always", fn.Pos(), "cannot find the execution of `git update-ref` in CheckAndSetReference")
+		} else {
+			mustPass(c, r, "cas-always", fn, isSuccessReturn, eng.NewCut().AddInstrs(cmds...), "every success of CheckAndSetReference went through `git update-ref <ref> <new> <old>`", "CheckAndSetReference can succeed without the compare-and-set command having run (e.g. a shortcut for a zero old value sets the reference unconditionally: two writers creating the log at once both succeed)")
+		}
+		for _, k := range eng.Calls(fn, false) {
+			if k.Method() == "SetReference" || k.Method() == "DeleteReference" {
+				r.Bad("cas-no-plain-write", k.Pos(), "CheckAndSetReference calls %s: an unconditional write inside the compare-and-set primitive", k.Method())
+			}
+		}
 	}
 }
 
